@@ -10,9 +10,54 @@ HL = "decoder::horizontal_layered::Decoder::<A>::"
 ARI = "decoder::arithmetic::DecoderArithmetic::"
 
 
-def trace_fn(F, path, names):
+def phase_methods(F, prefix):
+    """the state-changing steps of a schedule: methods of its Decoder that take `&mut self` (decode itself excluded).
+    Read-only private helpers (`&self`) are expanded at their call sites instead."""
+    out = []
+    for p, b in F.bodies.items():
+        if p.startswith(prefix) and p != prefix + "decode" and "{closure" not in p and b.d.get("def_kind") == "AssocFn":
+            ins = b.d.get("sig_inputs") or []
+            if ins and ins[0].replace(" ", "").startswith("&mut") and "Decoder" in ins[0]:
+                out.append(p)
+    return sorted(out)
+
+
+def phase_roles(F, prefix):
+    """{method path: 'init' | 'check' | 'variable' | 'other'}: the step that takes the channel LLRs is the initialisation; the others
+    are classified by the message type of the store they write (a store of variable->check messages: variable pass; else a store of
+    check->variable messages: check pass). Names of the methods play no role."""
+    adt = F.adts.get(prefix.split("::<")[0])
+    ftypes = {}
+    if adt:
+        for v in adt.get("variants", []):
+            for f in v.get("fields", []):
+                ftypes[f["name"]] = f.get("ty", "")
+    roles = {}
+    for p in phase_methods(F, prefix):
+        b = F.bodies[p]
+        if len(b.d.get("sig_inputs") or []) > 1:
+            roles[p] = "init"
+            continue
+        w = [f for f, d in self_field_uses(b).items() if "w" in d]
+        tys = [ftypes.get(f, "") for f in w]
+        if any("VarMessage" in t for t in tys):
+            roles[p] = "variable"
+        elif any("CheckMessage" in t for t in tys):
+            roles[p] = "check"
+        else:
+            roles[p] = "other"
+    return roles
+
+
+def decode_contracts(F, prefix):
+    import re
+    return r"decoder::check_llrs|decoder::hard_decisions|decoder::arithmetic::.*|sparse::SparseMatrix::.*|" + \
+        "|".join(re.escape(p) for p in phase_methods(F, prefix))
+
+
+def trace_fn(F, path, names, contracts=NOINL):
     b = F.body(path)
-    t = SiteTracer(F, contracts=NOINL, no_inline=NOINL)
+    t = SiteTracer(F, contracts=contracts, no_inline=contracts)
     env = {}
     for p, nm in zip(b.params, names):
         t.bind(p, var(nm), env)
